@@ -10,7 +10,7 @@
 (* Two-level choice (first string, then second string) so that several TLC workers share the work.   *)
 EXTENDS CLibOps, TLC, Json
 
-CONSTANTS MaxLen, MaxLenW, MaxBytes, MaxMove, WideHi
+CONSTANTS MaxLen, MaxLenB, MaxLenW, MaxBytes, MaxMove, WideHi, LawLen
 
 VARIABLES ph, vec
 vars == <<ph, vec>>
@@ -21,7 +21,9 @@ Alpha0(w) == IF w = 0 THEN {97, 98, 200} ELSE {97, 98, 8364}
 Cs(w) == IF w = 0 THEN <<0, 97, 98, 200, 99, -56, 353>> ELSE <<0, 97, 98, 8364, 99>>
 Strs(w, n) == UNION {[1..k -> Alpha0(w)] : k \in 0..n}
 Blocks(w, n) == UNION {[1..k -> Alpha0(w) \cup {0}] : k \in 0..n}
+\* byte family: first string up to MaxLen, second up to MaxLenB; wide family: both up to MaxLenW
 ML(w) == IF w = 0 THEN MaxLen ELSE MaxLenW
+MLB(w) == IF w = 0 THEN MaxLenB ELSE MaxLenW
 UpTo(n) == [i \in 1..(n + 1) |-> i - 1]
 
 Guard == <<161, 162, 163, 164>>
@@ -46,7 +48,7 @@ Heads ==
 Leaves(h) ==
     CASE h.k = "first" ->
            {[k |-> "pair", w |-> h.w, a |-> h.a, b |-> b, ns |-> UpTo(Max2(Len(h.a), Len(b)) + 2)] :
-               b \in Strs(h.w, ML(h.w))}
+               b \in Strs(h.w, MLB(h.w))}
       [] h.k = "hb" ->
            \* the single-block calls (memchr, memset: characters cs) ride on the vector with b = a only
            {[k |-> "bytes", w |-> h.w, a |-> h.a, b |-> b, cs |-> IF b = h.a THEN Cs(h.w) ELSE <<>>,
@@ -231,7 +233,9 @@ DivLaws(x, y) ==
 
 Laws ==
     ph = 2 =>
-       CASE vec.k = "pair" -> PairLaws(vec.w, vec.a, vec.b, vec.ns)
+       \* the laws are theorems about the operators: they are evaluated on the pairs up to LawLen; longer
+       \* pairs are enumerated for the binding (export) only
+       CASE vec.k = "pair" -> (Len(vec.a) <= LawLen /\ Len(vec.b) <= LawLen) => PairLaws(vec.w, vec.a, vec.b, vec.ns)
          [] vec.k = "one" -> OneLaws(vec.w, vec.a, vec.cs)
          [] vec.k = "move" -> MoveLaws(vec)
          [] vec.k = "bytes" -> BytesLaws(vec)
